@@ -5,6 +5,7 @@ open BiotiteModel BiotiteModel.C11 BiotiteModel.Proto
 
 structure St where
   alph : List Char := []
+  alphs : List (List Char) := []     -- per-row alphabets (`set`: all equal; `setm`: different alphabets per sequence)
   seqs : List (List Nat) := []
   trace : Trace := []
   k : Nat := 0      -- alphabet size (`setc`: huge generic alphabet whose symbols are the codes themselves)
@@ -127,8 +128,17 @@ def step (st : St) (line : String) : St × String :=
   | ["set", alph, seqs, tr] =>
     let alph := alph.toList
     match (parseStrs seqs).mapM (encode alph), parseTrace tr with
-    | some ss, some t => ({ alph := alph, seqs := ss, trace := t, k := alph.length }, "ok")
+    | some ss, some t => ({ alph := alph, alphs := ss.map fun _ => alph, seqs := ss, trace := t, k := alph.length }, "ok")
     | _, _ => (st, "bad-op")
+  | ["setm", alphs, seqs, tr] =>
+    let alphs := (alphs.splitOn "|").map String.toList
+    let strs := parseStrs seqs
+    match (if alphs.length == strs.length then (alphs.zip strs).mapM fun p => encode p.1 p.2 else none), parseTrace tr with
+    | some ss, some t => ({ alph := alphs.headD [], alphs := alphs, seqs := ss, trace := t, k := 0 }, "ok")
+    | _, _ => (st, "bad-op")
+  | ["fastagaps", chars, strs] =>
+    (st, showE (fun (p : List (List Char) × Trace) => showStrs p.1 ++ " | " ++ showTrace p.2)
+      (fastaGet (chars.toList.filter (· ≠ '-')) (parseStrs strs)))
   | ["setc", k, seqs, tr] =>
     match k.toNat?, parseCodeSeqs seqs, parseTrace tr with
     | some k, some ss, some t => ({ alph := [], seqs := ss, trace := t, k := k }, "ok")
@@ -142,17 +152,17 @@ def step (st : St) (line : String) : St × String :=
           | some c => if c < st.k then .ok (some c) else .error .alphabetError) row) codes
     (st, showE showRows r)
   | ["strings"] =>
-    (st, showE showStrs (gappedStrings (st.seqs.map (decodeSeq st.alph)) st.trace))
+    (st, showE showStrs (gappedStrings ((st.alphs.zip st.seqs).map fun p => decodeSeq p.1 p.2) st.trace))
   | ["fromstrings", s] => (st, showE showTrace (traceFromStrings (parseStrs s)))
   | ["fasta"] =>
-    let r := match gappedStrings (st.seqs.map (decodeSeq st.alph)) st.trace with
+    let r := match gappedStrings ((st.alphs.zip st.seqs).map fun p => decodeSeq p.1 p.2) st.trace with
       | .error e => .error e
       | .ok strs => fastaGet ['_'] strs
     (st, showE (fun (p : List (List Char) × Trace) => showStrs p.1 ++ " | " ++ showTrace p.2) r)
   | ["codes"] => (st, showE showRows (getCodes st.seqs st.trace))
   | ["symbols"] =>
     (st, showE (fun rows => joinWith ";" (rows.map fun r =>
-      if r.isEmpty then "_" else String.ofList (r.map fun x => x.getD '-'))) (getSymbols st.alph st.seqs st.trace))
+      if r.isEmpty then "_" else String.ofList (r.map fun x => x.getD '-'))) (getSymbols st.alphs st.seqs st.trace))
   | ["termgaps"] => (st, showE (fun (p : Nat × Nat) => s!"{p.1} {p.2}") (findTerminalGaps st.seqs.length st.trace))
   | ["rmterm"] => (st, showE showTrace (removeTerminalGaps st.seqs.length st.trace))
   | ["rmgaps"] => (st, "ok " ++ showTrace (removeGaps st.trace))
